@@ -841,8 +841,8 @@ func (s *Subscription) Dispose() {
 
 	if s.resourceSub != nil {
 		// Whether the references were sent to the client is decided by the
-		// state prior to being disposed.
-		s.unsubscribeRefs(state == stateSent)
+		// state prior to being disposed. A deleted resource was sent.
+		s.unsubscribeRefs(state == stateSent || state == stateDeleted)
 		if state != stateDeleted {
 			s.resourceSub.Unsubscribe(s)
 		}
